@@ -353,12 +353,14 @@ func (e *erasureCodingPartStore) getPartWithHealing(ctx context.Context, tx data
 func (e *erasureCodingPartStore) openPartReaders(ctx context.Context, tx database.Tx, partId partstore.PartId) ([]io.ReadCloser, []bool, error) {
 	readers := make([]io.ReadCloser, e.totalShards)
 	healShards := make([]bool, e.totalShards)
+	notFound := 0
 	for i := 0; i < e.totalShards; i++ {
 		rc, err := e.partStores[i].GetPart(ctx, tx, partId)
 		if err != nil {
 			if errors.Is(err, partstore.ErrPartNotFound) {
 				readers[i] = nil
 				healShards[i] = true
+				notFound++
 				continue
 			}
 			closePartReaders(readers)
@@ -384,6 +386,10 @@ func (e *erasureCodingPartStore) openPartReaders(ctx context.Context, tx databas
 			continue
 		}
 		readers[i] = rc
+	}
+	if notFound == e.totalShards {
+		// No shard store knows the part: it does not exist (never written or deleted).
+		return nil, nil, partstore.ErrPartNotFound
 	}
 	return readers, healShards, nil
 }
@@ -521,7 +527,12 @@ func (e *erasureCodingPartStore) newPartReader(ctx context.Context, tx database.
 				_ = pw.CloseWithError(fmt.Errorf("insufficient shards in stripe %d", stripeIndex))
 				return
 			}
-			if err := enc.ReconstructData(shards); err != nil {
+			reconstruct := enc.ReconstructData
+			if healMissing {
+				// healed parity shards need their content as well
+				reconstruct = enc.Reconstruct
+			}
+			if err := reconstruct(shards); err != nil {
 				closeHealingWriters(err)
 				_ = pw.CloseWithError(err)
 				return
